@@ -262,7 +262,7 @@ func (s *c30Scratch) newRunner(cfg c30Cfg, dir string) *c30Run {
 		interp.OpenHandler(c30Open(s.dir)),
 	}
 	if cfg.Params != nil {
-		opts = append(opts, interp.Params(cfg.Params...))
+		opts = append(opts, interp.Params(append([]string(nil), cfg.Params...)...))
 	}
 	if cfg.Interactive {
 		opts = append(opts, interp.Interactive(true))
